@@ -1,6 +1,8 @@
 import HpxVerif.Props.C02
 import HpxVerif.Lemmas.HashReal3
 import HpxVerif.Lemmas.FrontendReal
+import HpxVerif.Lemmas.RingBij5
+import HpxVerif.Lemmas.LayerBmi
 
 set_option autoImplicit false   -- an unknown identifier in a statement is an error, never a new variable
 
@@ -161,5 +163,29 @@ theorem frontend_small_real (lon lat : ℝ) (hlon : |lon| < 64 * Real.pi) (hl1 :
     0 ≤ (Hash.d0hLhInD0c (α := ℝ) lon lat).2.2 - (Hash.d0hLhInD0c (α := ℝ) lon lat).2.1 ∧
     (Hash.d0hLhInD0c (α := ℝ) lon lat).2.2 - (Hash.d0hLhInD0c (α := ℝ) lon lat).2.1 ≤ 2 :=
   Hpx.HashReal.frontend_small_real lon lat hlon hl1 hl2
+
+open Hpx.HashReal in
+/-- **end to end over the reals, on cell numbers** (depth `≤ 29`, LUT and BMI2 builds): `hash` returns a number `c < 12·4^depth`,
+    `c = d0h·4^depth + interleave i j`, `decode_hash c = (d0h, i, j)`, and the closed diamond of that cell contains the
+    projected position -/
+theorem hash_real_cell (cfg : Cfg) (d : ℕ) (hd : d ≤ 29) (lon lat : ℝ) (hlon : |lon| < 64 * Real.pi)
+    (hl1 : -(Real.pi / 2) ≤ lat) (hl2 : lat ≤ Real.pi / 2) :
+    ∃ (c b i j : ℕ) (X Y : ℝ), Hash.hashV2 (α := ℝ) cfg d lon lat = some c ∧ c < 12 * 4 ^ d ∧
+      c = b * 4 ^ d + interleave i j ∧ Layer.decodeHash cfg d c = some ⟨b, i, j⟩ ∧ b < 12 ∧ i < 2 ^ d ∧ j < 2 ^ d ∧
+      Proj.proj (α := ℝ) lon lat = some (X, Y) ∧ ∃ m : ℤ, InDiamond d b i j (X + 8 * (m : ℝ)) Y := by
+  obtain ⟨X, Y, hp, hb, hi, hj, m, hm⟩ := Hpx.HashReal.hash_real_contains d (by omega) lon lat hlon hl1 hl2
+  have hchk : Proj.checkLat (α := ℝ) lat = true := by
+    cases h : Proj.checkLat (α := ℝ) lat with
+    | true => rfl
+    | false => simp [Proj.proj, h] at hp
+  set b := (Hash.d0hLhInD0c (α := ℝ) lon lat).1 with hbdef
+  set i := gridCoord d ((Hash.d0hLhInD0c (α := ℝ) lon lat).2.2 + (Hash.d0hLhInD0c (α := ℝ) lon lat).2.1) with hidef
+  set j := gridCoord d ((Hash.d0hLhInD0c (α := ℝ) lon lat).2.2 - (Hash.d0hLhInD0c (α := ℝ) lon lat).2.1) with hjdef
+  have hv : Hpx.RingBij.Valid d ⟨b, i, j⟩ := ⟨hb, hi, hj⟩
+  have hbs := Hpx.RingBij.build_spec (LayerBmi.noBmi cfg) (LayerBmi.noBmi_bmi cfg) d hd ⟨b, i, j⟩ hv
+  have hdb := Hpx.RingBij.decode_build (LayerBmi.noBmi cfg) (LayerBmi.noBmi_bmi cfg) d hd ⟨b, i, j⟩ hv
+  refine ⟨b * 4 ^ d + interleave i j, b, i, j, X, Y, ?_, hbs.2, rfl, ?_, hb, hi, hj, hp, m, hm⟩
+  · rw [hashV2_real_eq cfg d lon lat hchk, LayerBmi.buildHashFromParts_eq]; exact hbs.1
+  · rw [LayerBmi.decodeHash_eq]; exact hdb
 
 end Hpx.C01
